@@ -541,6 +541,51 @@ def f49():
         "IPv4NetworkField with string constraints: %r" % out
 
 
+# ---------------------------------------------------------------------------------------------
+# probes of OPEN findings that no correspondence stream reaches (operations outside the model's
+# alphabet).  A probe returns (still_reproduces, detail); it never raises an alarm by itself.
+# ---------------------------------------------------------------------------------------------
+FINDINGS = {}
+
+
+def finding(fid, props):
+    def deco(fn):
+        FINDINGS[fid] = (props, fn)
+        return fn
+    return deco
+
+
+@finding("F29", ["C01"])
+def p29():
+    from cincoconfig import Schema, IntField, StringField
+    other = Schema()
+    other.unrelated = StringField(default="x")
+    s = Schema()
+    s.sub.n = IntField(min=0, max=10)
+    c = s()
+    foreign = other()
+    try:
+        c.sub = foreign
+    except ValueError:
+        return False, "a Config of a foreign schema is rejected for the sub-configuration slot"
+    return c.sub is foreign and "n" not in c.sub._data, "cfg.sub = <Config of another schema> is accepted: sub holds %r" % dict(c.sub._data)
+
+
+@finding("F42", ["C11"])
+def p42():
+    from cincoconfig import Schema, IncludeField, IntField
+    s = Schema()
+    s.inc = IncludeField(required=True)
+    s.n = IntField(default=1)
+    c = s()
+    try:
+        c.load_tree({"n": 2})
+        errs = c.validate(collect_errors=True)
+    except ValueError:
+        return False, "required IncludeField without a value is rejected"
+    return errs == [] and c.inc is None, "IncludeField(required=True) never given a value passes load_tree and validate()"
+
+
 def main(argv):
     home = _tmp()
     os.environ["HOME"] = home
